@@ -413,6 +413,61 @@ Definition run_fuel (chunks : list bytes) : nat := 2 * total_len chunks + length
 Definition read_csv (c : csv_cfg) (cap maxtok : Z) (chunks : list bytes) : list event * final :=
   run_scanner c maxtok (run_fuel chunks) (init_scanner cap chunks).
 
+
+(* ------------------------------------------------------------------------- *)
+(* Two reference formulations used by the theorems (Proofs/CsvRoundtrip.v, CsvChunks.v)
+   and run against the implementation by the harness like the rest of this file.          *)
+
+(* the splitter run over a complete input: every call sees all the remaining data, atEOF *)
+Fixpoint read_all (fuel : nat) (c : csv_cfg) (s : csv_st) (data : bytes) : list event :=
+  match fuel with
+  | O => []
+  | S f =>
+    match scan c s data [] 0 true with
+    | (s', ORecord adv tok fields) => ERecord tok fields :: read_all f c s' (zdrop adv data)
+    | (s', OHeader adv names) => EHeader names :: read_all f c s' (zdrop adv data)
+    | _ => []
+    end
+  end.
+
+Definition read_file (c : csv_cfg) (data : bytes) : list event :=
+  read_all (S (length data)) c (mkSt false 0) data.
+
+
+(* bufio.Scanner's loop without the buffer management *)
+Definition nonempty (l : bytes) : bool := match l with [] => false | _ :: _ => true end.
+
+(* [pend] = the bytes read and not yet consumed (buf[start:end]); [chunks] = what the reader
+   will still deliver, read by read; [eof] = the reader has reported EOF.  One iteration =
+   one iteration of Scan's loop: hand [pend] to the splitter if there is something to hand
+   over; deliver a token; otherwise read once more (after a header row as well: it is a nil
+   token), or stop at EOF.  The buffer is unbounded (no record exceeds the maximum) and
+   nothing lies behind the data (tokens do not depend on it, [scan_accounting]). *)
+Fixpoint arun (fuel : nat) (c : csv_cfg) (s : csv_st) (pend : bytes) (chunks : list bytes)
+  (eof : bool) : list event :=
+  match fuel with
+  | O => []
+  | S f =>
+    let more (s : csv_st) (pend : bytes) :=
+      if eof then []
+      else match chunks with
+           | [] => arun f c s pend [] true
+           | ch :: rest => arun f c s (pend ++ ch) rest false
+           end in
+    if nonempty pend || eof
+    then
+      match scan c s pend [] 0 eof with
+      | (s', ORecord adv tok fields) => ERecord tok fields :: arun f c s' (zdrop adv pend) chunks eof
+      | (s', OHeader adv names) => EHeader names :: more s' (zdrop adv pend)
+      | (s', ONeed) => more s' pend
+      | _ => []
+      end
+    else more s pend
+  end.
+
+Definition msr (pend : bytes) (chunks : list bytes) (eof : bool) : nat :=
+  (2 * (length pend + length (concat chunks)) + length chunks + (if eof then 0 else 1))%nat.
+
 (* ------------------------------------------------------------------------- *)
 (* encoding/csv Writer.Write as configured by interp.writeCSV                 *)
 
